@@ -1,49 +1,14 @@
-mod alpha;
-mod flat;
-mod flatgen;
-mod rng;
 
+use pvh::util::{par_map, read_lines};
+use pvh::{alpha, flat, flatgen};
 use serde_json::{Value, json};
-use std::io::{BufRead, Write};
+use std::io::Write;
 
 fn usage() -> ! {
     eprintln!(
         "usage:\n  pvh replay-flat <cases.ndjson> <out.ndjson> [--ir]\n  pvh record-flat <prop> <count> <seed> <out-prefix> <chunks>\n  pvh show-flat <items-json>"
     );
     std::process::exit(2)
-}
-
-fn threads() -> usize {
-    std::env::var("PVH_THREADS").ok().and_then(|x| x.parse().ok()).unwrap_or(12)
-}
-
-fn read_lines(path: &str) -> Vec<String> {
-    let f = std::fs::File::open(path).unwrap_or_else(|e| {
-        eprintln!("cannot open {path}: {e}");
-        std::process::exit(2)
-    });
-    std::io::BufReader::new(f).lines().map(|l| l.unwrap()).filter(|l| !l.trim().is_empty()).collect()
-}
-
-/// Run `f` over all inputs on a pool of threads, keeping order.
-fn par_map<T: Sync, R: Send>(inputs: &[T], f: impl Fn(usize, &T) -> R + Sync) -> Vec<R> {
-    let n = threads().max(1);
-    let chunk = inputs.len().div_ceil(n).max(1);
-    let mut out: Vec<Vec<R>> = Vec::new();
-    std::thread::scope(|s| {
-        let handles: Vec<_> = inputs
-            .chunks(chunk)
-            .enumerate()
-            .map(|(ci, part)| {
-                let f = &f;
-                s.spawn(move || part.iter().enumerate().map(|(i, x)| f(ci * chunk + i, x)).collect::<Vec<R>>())
-            })
-            .collect();
-        for h in handles {
-            out.push(h.join().expect("worker thread panicked"));
-        }
-    });
-    out.into_iter().flatten().collect()
 }
 
 fn strs(v: &Value) -> Vec<String> {
